@@ -716,6 +716,270 @@ theorem SubFacts.chainPath {o o' : Onto} {root : Nat} {leaves : List Term} {ids 
       SubFacts.chainPath f h.2 hx (fun z hz => hp z (List.mem_cons_of_mem _ hz))⟩
 
 
+
+/-! ### the record maps -/
+
+theorem getR_eq_none {rs : List Rec} {i : Nat} : getR rs i = none ↔ ∀ u ∈ rs, u.id ≠ i := by
+  induction rs with
+  | nil => simp [getR]
+  | cons u us ih =>
+    simp only [getR, List.mem_cons, forall_eq_or_imp]
+    by_cases h : u.id = i
+    · simp [h]
+    · simp [h, ih]
+
+theorem getR_append (rs : List Rec) (r : Rec) (i : Nat) :
+    getR (rs ++ [r]) i = match getR rs i with
+      | some u => some u
+      | none => if r.id = i then some r else none := by
+  induction rs with
+  | nil => simp [getR]
+  | cons u us ih =>
+    simp only [List.cons_append, getR]
+    split
+    · rfl
+    · exact ih
+
+theorem modR_append_last {rs : List Rec} {r0 : Rec} (f : Rec → Rec) (h : getR rs r0.id = none) :
+    modR (rs ++ [r0]) r0.id f = rs ++ [f r0] := by
+  induction rs with
+  | nil => simp [modR]
+  | cons u us ih =>
+    have hu := getR_eq_none.1 h
+    have h1 : u.id ≠ r0.id := hu u List.mem_cons_self
+    have h2 : getR us r0.id = none := getR_eq_none.2 (fun v hv => hu v (List.mem_cons_of_mem _ hv))
+    simp [modR, h1, ih h2]
+
+theorem annotateAll_recs (k : Kind) (r : Rec) : ∀ (ts : List Nat) (b b' : Onto) (rs0 : List Rec) (r0 : Rec),
+    annotateAll k r ts b = .ok b' → b.recs k = rs0 ++ [r0] → r0.id = r.id → getR rs0 r.id = none →
+    b'.recs k = rs0 ++ [{ r0 with hpos := Group.insertAll r0.hpos ts }] ∧ ∀ k', k' ≠ k → b'.recs k' = b.recs k'
+  | [], b, b', rs0, r0, h, hb, _, _ => by
+    simp only [annotateAll] at h; cases h
+    exact ⟨by simp [hb, Group.insertAll], fun _ _ => rfl⟩
+  | t :: ts, b, b', rs0, r0, h, hb, hid, hfresh => by
+    simp only [annotateAll] at h
+    obtain ⟨b1, h1, h2⟩ := Res.bind_eq_ok.1 h
+    obtain ⟨_, e1, e2⟩ := annotate_ok h1
+    have hget : getR (rs0 ++ [r0]) r.id = some r0 := by
+      rw [getR_append, hfresh]; simp [hid]
+    have e1' : b1.recs k = rs0 ++ [{ r0 with hpos := (Group.insert r0.hpos t).1 }] := by
+      rw [e1, hb]
+      simp only [addR, hget]
+      rw [← hid]
+      exact modR_append_last _ (hid ▸ hfresh)
+    obtain ⟨e3, e4⟩ := annotateAll_recs k r ts b1 b' rs0 _ h2 e1' hid hfresh
+    refine ⟨?_, fun k' hk => (e4 k' hk).trans (e2 k' hk)⟩
+    rw [e3]; simp [Group.insertAll]
+
+theorem annotateAll_fresh (k : Kind) (r : Rec) (t : Nat) (ts : List Nat) (b b' : Onto)
+    (h : annotateAll k r (t :: ts) b = .ok b') (hfresh : getR (b.recs k) r.id = none) :
+    b'.recs k = b.recs k ++ [{ id := r.id, name := r.name, hpos := Group.insertAll [] (t :: ts) }] ∧
+    ∀ k', k' ≠ k → b'.recs k' = b.recs k' := by
+  simp only [annotateAll] at h
+  obtain ⟨b1, h1, h2⟩ := Res.bind_eq_ok.1 h
+  obtain ⟨_, e1, e2⟩ := annotate_ok h1
+  have e1' : b1.recs k = b.recs k ++ [{ id := r.id, name := r.name, hpos := [t] }] := by
+    rw [e1]
+    simp only [addR, hfresh]
+    have := modR_append_last (rs := b.recs k) (r0 := { id := r.id, name := r.name })
+      (fun r => { r with hpos := (Group.insert r.hpos t).1 }) hfresh
+    simpa [Group.insert] using this
+  obtain ⟨e3, e4⟩ := annotateAll_recs k r ts b1 b' _ _ h2 e1' rfl hfresh
+  refine ⟨?_, fun k' hk => (e4 k' hk).trans (e2 k' hk)⟩
+  rw [e3]; simp [Group.insertAll, Group.insert]
+
+/-- the record `sub_ontology` creates for a source record (if any) -/
+def keepRec (ids ph : List Nat) (r : Rec) : Option Rec :=
+  if (Group.bitand r.hpos ph).isEmpty then none
+  else match Group.bitand r.hpos ids with
+    | [] => none
+    | t :: ts => some { id := r.id, name := r.name, hpos := Group.insertAll [] (t :: ts) }
+
+theorem keepRec_id {ids ph : List Nat} {r r' : Rec} (h : keepRec ids ph r = some r') : r'.id = r.id := by
+  unfold keepRec at h
+  split at h
+  · cases h
+  · split at h <;> cases h; rfl
+
+theorem copyRecs_recs (k : Kind) (ids ph : List Nat) : ∀ (rs : List Rec) (b b' : Onto),
+    copyRecs k ids ph rs b = .ok b' → (rs.map (·.id)).Nodup → (∀ r ∈ rs, getR (b.recs k) r.id = none) →
+    b'.recs k = b.recs k ++ rs.filterMap (keepRec ids ph) ∧ ∀ k', k' ≠ k → b'.recs k' = b.recs k'
+  | [], b, b', h, _, _ => by simp only [copyRecs] at h; cases h; simp
+  | r :: rs, b, b', h, hnd, hfresh => by
+    simp only [List.map_cons, List.nodup_cons] at hnd
+    simp only [copyRecs] at h
+    have hf' : ∀ q ∈ rs, getR (b.recs k) q.id = none := fun q hq => hfresh q (List.mem_cons_of_mem _ hq)
+    split at h
+    · rename_i hemp
+      obtain ⟨e1, e2⟩ := copyRecs_recs k ids ph rs b b' h hnd.2 hf'
+      refine ⟨?_, e2⟩
+      rw [e1]; simp [keepRec, hemp]
+    · rename_i hemp
+      obtain ⟨b1, h1, h2⟩ := Res.bind_eq_ok.1 h
+      cases hts : Group.bitand r.hpos ids with
+      | nil =>
+        rw [hts] at h1
+        simp only [annotateAll] at h1; cases h1
+        obtain ⟨e1, e2⟩ := copyRecs_recs k ids ph rs b b' h2 hnd.2 hf'
+        refine ⟨?_, e2⟩
+        rw [e1]; simp [keepRec, hemp, hts]
+      | cons t ts =>
+        rw [hts] at h1
+        obtain ⟨a1, a2⟩ := annotateAll_fresh k r t ts b b1 h1 (hfresh r List.mem_cons_self)
+        have hf1 : ∀ q ∈ rs, getR (b1.recs k) q.id = none := by
+          intro q hq
+          rw [a1, getR_append, hf' q hq]
+          have : r.id ≠ q.id := fun e => hnd.1 (List.mem_map.2 ⟨q, hq, e.symm⟩)
+          simp [this]
+        obtain ⟨e1, e2⟩ := copyRecs_recs k ids ph rs b1 b' h2 hnd.2 hf1
+        refine ⟨?_, fun k' hk => (e2 k' hk).trans (a2 k' hk)⟩
+        rw [e1, a1]; simp [keepRec, hemp, hts]
+
+
+
+/-- the three record maps are untouched -/
+def RecsEq (o o' : Onto) : Prop := o'.genes = o.genes ∧ o'.omim = o.omim ∧ o'.orpha = o.orpha
+
+theorem RecsEq.refl (o : Onto) : RecsEq o o := ⟨rfl, rfl, rfl⟩
+theorem RecsEq.trans {a b c : Onto} (h1 : RecsEq a b) (h2 : RecsEq b c) : RecsEq a c :=
+  ⟨h2.1.trans h1.1, h2.2.1.trans h1.2.1, h2.2.2.trans h1.2.2⟩
+theorem RecsEq.recs {o o' : Onto} (h : RecsEq o o') (k : Kind) : o'.recs k = o.recs k := by
+  cases k
+  · exact h.1
+  · exact h.2.1
+  · exact h.2.2
+
+theorem cacheFold_recs {rec : Onto → Nat → Res Onto}
+    (hrec : ∀ o i o', rec o i = .ok o' → RecsEq o o') :
+    ∀ (ps : List Nat) (o : Onto) (acc : List Nat) (r : Onto × List Nat),
+    cacheFold rec ps o acc = .ok r → RecsEq o r.1
+  | [], o, acc, r, h => by simp only [cacheFold] at h; cases h; exact RecsEq.refl _
+  | p :: ps, o, acc, r, h => by
+    simp only [cacheFold] at h
+    split at h
+    · cases h
+    · obtain ⟨o1, h1, h2⟩ := Res.bind_eq_ok.1 h
+      have f1 : RecsEq o o1 := by
+        split at h1
+        · cases h1; exact RecsEq.refl _
+        · exact hrec _ _ _ h1
+      split at h2
+      · cases h2
+      · exact f1.trans (cacheFold_recs hrec ps o1 _ r h2)
+
+theorem createCache_recs : ∀ (fuel : Nat) (o : Onto) (i : Nat) (o' : Onto),
+    createCache fuel o i = .ok o' → RecsEq o o'
+  | 0, _, _, _, h => by simp [createCache] at h
+  | fuel + 1, o, i, o', h => by
+    simp only [createCache] at h
+    split at h
+    · cases h
+    · obtain ⟨r, h1, h2⟩ := Res.bind_eq_ok.1 h
+      have f1 := cacheFold_recs (createCache_recs fuel) _ _ _ _ h1
+      split at h2
+      · cases h2
+      · rename_i o2 hm
+        cases h2
+        refine f1.trans (modUnchecked_frame ?_ hm).2
+        intro t; rfl
+
+theorem connectFold_recs (fuel : Nat) : ∀ (is : List Nat) (o o' : Onto),
+    connectFold fuel is o = .ok o' → RecsEq o o'
+  | [], o, o', h => by simp only [connectFold] at h; cases h; exact RecsEq.refl _
+  | i :: is, o, o', h => by
+    simp only [connectFold] at h
+    obtain ⟨o1, h1, h2⟩ := Res.bind_eq_ok.1 h
+    exact (createCache_recs _ _ _ _ h1).trans (connectFold_recs fuel is o1 o' h2)
+
+/-- the records of a sub-ontology built from the id set `ids` -/
+theorem subOntologyOf_recs {o o' : Onto} {phen : Onto → Term → Bool} {ids : List Nat}
+    (h : subOntologyOf o phen ids = .ok o') (hnd : ids.Nodup) (hid : ∀ i ∈ ids, (o.srcTerm i).id = i)
+    (hrecs : ∀ k, ((o.recs k).map (·.id)).Nodup) (k : Kind) :
+    o'.recs k = (o.recs k).filterMap (keepRec ids (phenotypeIds o phen ids)) := by
+  unfold subOntologyOf at h
+  split at h
+  · cases h
+  · rename_i b1 hb1
+    split at h
+    · cases h
+    · rename_i b2 hb2
+      obtain ⟨b3, h3, h⟩ := Res.bind_eq_ok.1 h
+      obtain ⟨b4, h4, h⟩ := Res.bind_eq_ok.1 h
+      obtain ⟨b5, h5, h⟩ := Res.bind_eq_ok.1 h
+      obtain ⟨b6, h6, h⟩ := Res.bind_eq_ok.1 h
+      obtain ⟨b7, h7, h⟩ := Res.bind_eq_ok.1 h
+      cases h
+      obtain ⟨_, _, g1, g2, g3, _⟩ := copyTerms_spec o ids {} b1 hb1 hid hnd (by intro i _; rfl)
+      obtain ⟨_, l1, l2, l3⟩ := linkInduced_rel o ids ids b1 b2 hb2
+      have c3 : RecsEq b2 b3 := connectFold_recs _ _ _ _ h3
+      have e3 : ∀ k, b3.recs k = [] := by
+        intro k
+        rw [c3.recs k]
+        cases k
+        · exact l1.trans g1
+        · exact l2.trans g2
+        · exact l3.trans g3
+      have fresh : ∀ (b : Onto) k, b.recs k = [] → ∀ r ∈ o.recs k, getR (b.recs k) r.id = none := by
+        intro b k hb r _; rw [hb]; rfl
+      obtain ⟨a4, o4⟩ := copyRecs_recs .gene ids _ _ b3 b4 h4 (hrecs .gene) (fresh b3 .gene (e3 .gene))
+      have e4o : b4.recs .omim = [] := (o4 .omim (by decide)).trans (e3 .omim)
+      have e4r : b4.recs .orpha = [] := (o4 .orpha (by decide)).trans (e3 .orpha)
+      obtain ⟨a5, o5⟩ := copyRecs_recs .omim ids _ _ b4 b5 h5 (hrecs .omim) (fresh b4 .omim e4o)
+      have e5r : b5.recs .orpha = [] := (o5 .orpha (by decide)).trans e4r
+      obtain ⟨a6, o6⟩ := copyRecs_recs .orpha ids _ _ b5 b6 h6 (hrecs .orpha) (fresh b5 .orpha e5r)
+      have f7 := calcIc_frame h7
+      have hfin : (b7.buildMinimal).recs k = b6.recs k := by
+        have : (b7.buildMinimal).recs k = b7.recs k := by cases k <;> rfl
+        rw [this, f7.recs k]
+      rw [hfin]
+      cases k
+      · rw [o6 .gene (by decide), o5 .gene (by decide), a4, e3 .gene]; rfl
+      · rw [o6 .omim (by decide), a5, e4o]; rfl
+      · rw [a6, e5r]; rfl
+
+
+theorem keepRec_some {ids ph : List Nat} {r r' : Rec} (h : keepRec ids ph r = some r') :
+    r'.id = r.id ∧ r'.name = r.name ∧ r'.hpos = Group.insertAll [] (Group.bitand r.hpos ids) ∧
+    (Group.bitand r.hpos ph).isEmpty = false := by
+  unfold keepRec at h
+  split at h
+  · cases h
+  · rename_i hemp
+    split at h
+    · cases h
+    · rename_i t ts hts
+      cases h
+      exact ⟨rfl, rfl, by rw [hts], by simpa using hemp⟩
+
+theorem keepRec_isSome {ids ph : List Nat} (hsub : ∀ x ∈ ph, x ∈ ids) {r : Rec}
+    (h : (Group.bitand r.hpos ph).isEmpty = false) : ∃ r', keepRec ids ph r = some r' := by
+  unfold keepRec
+  simp only [h, Bool.false_eq_true, if_false]
+  cases hb : Group.bitand r.hpos ph with
+  | nil => rw [hb] at h; cases h
+  | cons d ds =>
+    have hd : d ∈ Group.bitand r.hpos ph := by rw [hb]; exact List.mem_cons_self
+    obtain ⟨h1, h2⟩ := (Group.mem_bitand _ _ _).1 hd
+    have : d ∈ Group.bitand r.hpos ids := (Group.mem_bitand _ _ _).2 ⟨h1, hsub d h2⟩
+    cases hts : Group.bitand r.hpos ids with
+    | nil => rw [hts] at this; cases this
+    | cons t ts => exact ⟨_, rfl⟩
+
+theorem eq_of_nodup_map_id : ∀ {rs : List Rec}, (rs.map (·.id)).Nodup → ∀ {a b : Rec}, a ∈ rs → b ∈ rs →
+    a.id = b.id → a = b
+  | [], _, _, _, ha, _, _ => by cases ha
+  | r :: rs, hnd, a, b, ha, hb, he => by
+    simp only [List.map_cons, List.nodup_cons] at hnd
+    rcases List.mem_cons.1 ha with hae | ha'
+    · rcases List.mem_cons.1 hb with hbe | hb'
+      · rw [hae, hbe]
+      · have : r.id ∈ rs.map (·.id) := List.mem_map.2 ⟨b, hb', by rw [← he, hae]⟩
+        exact absurd this hnd.1
+    · rcases List.mem_cons.1 hb with hbe | hb'
+      · have : r.id ∈ rs.map (·.id) := List.mem_map.2 ⟨a, ha', by rw [he, hbe]⟩
+        exact absurd this hnd.1
+      · exact eq_of_nodup_map_id hnd.2 ha' hb' he
+
 /-! ### a small ontology with a modifier root (non-vacuity and the pre-fix counterexample)
 
 `1` (root) has the children `5` (a modifier root) and `118`; `200` is a child of `118`.
